@@ -28,6 +28,19 @@ Record sync_facts := {
 Definition string_list_eqb (a b : list string) : bool :=
   (length a =? length b)%nat && forallb (fun p => String.eqb (fst p) (snd p)) (combine a b).
 
+(* every entry of l is one of the known sites (with multiplicity): code that has FEWER shared objects /
+   goroutines / channels than the analysed ones is covered by the same argument; a NEW site is not *)
+Fixpoint remove_one (x : string) (k : list string) : option (list string) :=
+  match k with
+  | [] => None
+  | y :: k' => if String.eqb x y then Some k' else option_map (cons y) (remove_one x k')
+  end.
+Fixpoint multi_incl (l k : list string) : bool :=
+  match l with
+  | [] => true
+  | x :: l' => match remove_one x k with Some k' => multi_incl l' k' | None => false end
+  end.
+
 Definition facts_from_source : sync_facts := {|
   sf_locks_first := sync_getpoly_locks_first;
   sf_defers_unlock := sync_getpoly_defers_unlock;
@@ -42,10 +55,10 @@ Definition facts_from_source : sync_facts := {|
 (* what the proofs need of the facts *)
 Definition facts_good (s : sync_facts) : bool :=
   sf_locks_first s && sf_defers_unlock s && sf_cache_private s && sf_no_mutated_globals s
-  && string_list_eqb (sf_shared_objects s) ["datamatrix.ec"; "qr.ec"]%string
-  && string_list_eqb (sf_go_statements s)
+  && multi_incl (sf_shared_objects s) ["datamatrix.ec"; "qr.ec"]%string
+  && multi_incl (sf_go_statements s)
        ["qr.iterateModules"; "qr.iterateModules"; "qr.stringToAlphaIdx"; "utils.IterateBytes"]%string
-  && string_list_eqb (sf_chan_makes s)
+  && multi_incl (sf_chan_makes s)
        ["qr.iterateModules:unbuffered"; "qr.iterateModules:unbuffered";
         "qr.stringToAlphaIdx:unbuffered"; "utils.IterateBytes:unbuffered"]%string
   && sf_goroutines_close_last s.
